@@ -278,7 +278,7 @@ fn msg() -> impl Strategy<Value = Msg> {
 
 pub fn run(ctx: &mut Ctx) {
     let fs = ctx.first_shard();
-    ctx.rule = "messages over channel ids (0, broadcast, random), all nine commands, payload lengths (every value 0..=7700, 65535/65536/70000, random) with zero / 0xFF / pseudo-random contents: sender output parsed by an independent packet parser and fed to a fresh receiver. Interleavings of 2-4 channels: ALL order-preserving merges when the streams have at most 9 packets in total, generated merges otherwise. Non-trivial = message with at least one continuation packet, a refused over-long payload, or a merge of at least two channels; distinct by message / by (messages, order).".into();
+    ctx.rule = "messages over channel ids (0, broadcast, random), all nine commands, payload lengths (every value 0..=7700, 65535/65536/70000, random) with zero / 0xFF / pseudo-random contents: sender output parsed by an independent packet parser and fed to a fresh receiver. Interleavings of 2-4 channels: ALL order-preserving merges when the streams have at most 9 packets in total, generated merges otherwise (uniformly mixed ones with up to 26 packets per channel, and skewed ones in which one channel pauses inside its message while others send whole messages of up to 129 packets and a further channel starts only afterwards). Non-trivial = message with at least one continuation packet, a refused over-long payload, or a merge of at least two channels; distinct by message / by (messages, order).".into();
     ctx.assumptions = vec![
         "the channel id byte order is accepted as either endianness but must be the same in all packets and round-trip".into(),
         "only messages the sender accepts are constrained; refusals at or below 7609 bytes are measured (Message::new refuses exactly 7609)".into(),
@@ -346,6 +346,40 @@ pub fn run(ctx: &mut Ctx) {
     match search(ctx, 26, n, strat, check_merge) {
         Search::Pass => {}
         Search::Fail(m, e) => ctx.violation("merges", json!(m), &e),
+    }
+    // ---- skewed interleavings: one channel pauses in the middle of its message while the others transmit long runs
+    // (whole maximum-size messages), and another channel only starts once the pause has lasted
+    let packets_of = |len: usize| if len <= 57 { 1 } else { 1 + (len - 57).div_ceil(59) };
+    let big = prop_oneof![3 => 7400usize..=7608, 1 => 3000usize..7400];
+    let frag = prop_oneof![2 => 58usize..400, 1 => 400usize..7608];
+    let skew = (proptest::collection::vec((any::<u32>(), 0usize..9, any::<u8>()), 4), frag.clone(), big, prop_oneof![1 => 0usize..58, 2 => frag.clone()], frag, 1usize..6, any::<bool>(), proptest::collection::vec(0usize..4, 0..40)).prop_map(
+        move |(ids, paused_len, big_len, small_len, late_len, before, three, tail)| {
+            let lens = [paused_len, big_len, small_len, late_len];
+            let mut msgs: Vec<Msg> = ids.iter().enumerate().map(|(i, (ch, cmd, fill))| Msg { channel: ch.wrapping_mul(4).wrapping_add(i as u32), cmd: *cmd, len: lens[i], fill: *fill }).collect();
+            // channel 0 pauses after `before` packets; 1 (and 2) run to completion meanwhile; 3 starts late
+            let mut order = vec![0usize; before.min(packets_of(paused_len) - 1)];
+            order.extend(std::iter::repeat(1).take(packets_of(big_len)));
+            if three {
+                // three channels only: the late one takes the small one's place
+                msgs.remove(2);
+                order.extend(std::iter::repeat(2).take(1));
+                order.extend(std::iter::repeat(0).take(packets_of(paused_len)));
+            } else {
+                order.extend(std::iter::repeat(2).take(packets_of(small_len)));
+                order.extend(std::iter::repeat(3).take(1));
+                order.extend(std::iter::repeat(0).take(packets_of(paused_len)));
+            }
+            order.extend(tail);
+            Merge { msgs, order }
+        },
+    );
+    let n = ctx.tier.pick(400u32, 60_000u32);
+    match search(ctx, 27, n, skew, |ctx, mg| {
+        ctx.class("merge/skewed (a channel pauses while others send >= 50 packets)");
+        check_merge(ctx, mg)
+    }) {
+        Search::Pass => {}
+        Search::Fail(m, e) => ctx.violation("merges-skewed", json!(m), &e),
     }
 }
 
